@@ -167,7 +167,9 @@ def install_bigint_specs(I, N):
     I.add_intercept(r".*" + B + r"shift_left_in_word<\(unsigned char\)1>\(.*\)", h_shl1, "BigInt::shift_left_in_word<1>")
 
 
-def ob_fpbase(cfg, N, op, alias, deep=False):
+def ob_fpbase(cfg, N, op, alias, deep=False, full=False):
+    """full: no range assumption on the operands (C03 quantifies over all N-bit operand pairs): the specification is then the function of the
+    truncated sum / difference / double with one conditional correction by p; for operands below p it is (a op b) mod p"""
     prog = prog_for(cfg)
     p = MOD[N]
     I = eir.Interp(prog)
@@ -180,7 +182,9 @@ def ob_fpbase(cfg, N, op, alias, deep=False):
     a = z3.BitVec("a", N)
     b = z3.BitVec("b", N) if FPBASE_OPS[op] == 2 and alias != 3 else a
     pv = z3.BitVecVal(p, N)
-    if op == "reduce":
+    if full:
+        I.assumptions = []
+    elif op == "reduce":
         I.assumptions = []                      # reduce takes any N-bit integer below 2p
         I.assumptions.append(z3.ULT(z3.ZeroExt(8, a), z3.BitVecVal(2 * p, W)))
     else:
@@ -200,6 +204,22 @@ def ob_fpbase(cfg, N, op, alias, deep=False):
     else:
         want = z3.If(z3.UGE(za, zp), za - zp, za)
     want = z3.Extract(N - 1, 0, want)
+    if full:
+        if op == "add":
+            s_ = za + zb
+            T = z3.Extract(N - 1, 0, s_)
+            want = z3.If(z3.Or(z3.Extract(N, N, s_) == 1, z3.UGE(T, pv)), T - pv, T)
+        elif op == "subtract":
+            T = a - b
+            want = z3.If(z3.ULT(a, b), T + pv, T)
+        elif op == "multiply2":
+            s_ = za + za
+            T = z3.Extract(N - 1, 0, s_)
+            want = z3.If(z3.Or(z3.Extract(N, N, s_) == 1, z3.UGE(T, pv)), T - pv, T)
+        elif op == "negate":
+            want = z3.If(a == 0, a, pv - a)
+        else:
+            want = z3.If(z3.UGE(a, pv), a - pv, a)
 
     def once():
         oa = bv_obj("a", N, a)
@@ -214,7 +234,7 @@ def ob_fpbase(cfg, N, op, alias, deep=False):
         args = [Ptr(ores, 0), Ptr(oa, 0)] + ([Ptr(ob, 0)] if ob is not None else []) + [Ptr(op_, 0)]
         I.call_named(fname, args)
         return read_bv(I, ores, N)
-    key = "%s:FpBase<%d>::%s:alias=%d" % (cfg, N, op, alias)
+    key = "%s:FpBase<%d>::%s:alias=%d%s" % (cfg, N, op, alias, ":all-operands" if full else "")
     n = check_all_paths(I, once, lambda out: out == want, key, "FpBase<%d>::%s (%s)" % (N, op, cfg),
                         {"a": a, "b": b}, {"kernel": "fpbase_%d_%s" % (N, op), "backend": cfg, "alias": alias})
     note = "; ".join(sorted(set(m for k, m in I.events if k == "noalias")))
